@@ -111,7 +111,7 @@ GAPS = {
     'C11': ['COOMatrix/CSCMatrix/CSRMatrix._build (scipy.sparse construction, lexsort index maps, the within-subjac-duplicates flag): bounded tiers only (CSR/CSC _update_from_submat is proved given the map)', 'DenseMatrix._build (repeated-entry decision) and the COO fallback path of DenseMatrix', 'DenseMatrix._update_dtype / complex-step dtype switches: bounded tiers only', 'SplitJacobian._apply / _get_split_subjacs (which factor and src_indices each sub-jacobian gets)', 'scipy-format sub-jacobian kernels (assumed: scipy @ and .T)'],
     'C02': ['Group._apply_linear / System recursion and scaling contexts', 'linear solvers (LAPACK/SuperLU/Krylov, LinearRHSChecker solution cache) in fwd vs rev: BOUNDED model tier only', 'scipy-format sub-jacobians (COO/CSR/CSCSubjac use scipy @ and .T: assumed)', 'assembled matrices _prod (C11)', 'DictionaryJacobian._apply for implicit components, compute_jacvec_product, matrix-free components', 'Problem-level <w, J v> = <J^T w, v>: BOUNDED model tier only (fwd totals == rev totals == analytic on generated models)'],
     'C23': ['all generator classes (value maps, designs, strata, reproducibility): bounded exhaustive tier only', 'drivers/sampling/* counterparts', 'Driver._set_design_var (assumed)', 'parallel DOE (MPI)'],
-    'C05': ['Indexer class hierarchy (shaped_instance / as_array / indexed_src_shape / _check_bounds): bounded exhaustive tier against NumPy only', 'index chains through promotes (C04)', 'known finding F5a (recorded, not repaired)'],
+    'C05': ['Indexer class hierarchy (as_array / flat / indexed_src_shape / _check_bounds, shaped_instance of the slice / array / multi / ellipsis classes): bounded exhaustive tier against NumPy only (Indexer.set_src_shape - cache discipline - and IntIndexer.shaped_instance are proved)', 'index chains through promotes (C04)', 'known finding F5a (recorded, not repaired)'],
     'C29': ['write->read round trip through re/pyparsing: bounded exhaustive tier only', 'transfer_2Darray, transfer_keyvar, anchors with occurrence != 1', 'string values containing delimiters'],
     'C08': ['Group._compute_root_scale_factors: array-valued ref/ref0 selected through src_indices (idx_list_to_index_array), the output/residual branch, the loop over all inputs (one iteration with scalar ref/ref0 is proved)', 'System._scaled_context_all / _unscaled_context around every user callback', 'DefaultVector._allocate_scaling_data sharing between linear and nonlinear vectors', 'converged outputs and total derivatives of whole models under different ref/ref0/res_ref (solver numerics)'],
     'C12': ['truncation error for non-polynomial functions', 'step_calc=rel_element and directional options', 'compute_approx_col_iter generator (save / finally restore of FD mode)', 'colored approximation equals uncolored (C03)', 'ComplexStep: outputs/residuals after a point, nested complex-step fallback to FD', 'approximated totals'],
